@@ -296,6 +296,9 @@ func runCheck(o checkOpts) int {
 	if workers < 2 {
 		workers = 2
 	}
+	for _, r := range runs {
+		r.modelInputs() // computed up front: the solver workers must not touch the engine's registries
+	}
 	dischargeAll(all, tmp, o.timeout, workers)
 
 	// report
